@@ -220,6 +220,7 @@ class Site(Hdf5Exportable):
             inv_perm = inverse_permutation(permute)
             self.perm = self.perm[permute]
             self.state_labels = dict((lbl, int(inv_perm[i])) for lbl, i in self.state_labels.items())
+            self.used_sort_charge = True  # dense operators in the standard basis need `perm` from now on
         for opname in self.opnames.copy():
             op = self.get_op(opname).to_ndarray()
             self.opnames.remove(opname)
